@@ -21,7 +21,7 @@ import (
 // compared with the model; then a heartbeat commits the whole log and the node applies it:
 // no state machine instance may see an index twice or out of order (C01).
 
-var lifeKeys = []string{"role", "term", "vote", "log", "ci", "la", "si", "st", "cfg", "com", "fol"}
+var lifeKeys = []string{"role", "term", "vote", "log", "ci", "la", "si", "st", "cfg", "com", "fol", "lc"}
 
 func normCom(kv KV) {
 	if kv["com"] == "c0" {
@@ -210,7 +210,8 @@ func TestE3Lifecycle(t *testing.T) {
 					continue
 				}
 				mnode = splitSections(sa)[0]
-				// ---- Start / Restart on the same object
+				// ---- Start / Restart on the same object (Stop took virtual time: the start happens now)
+				now = msOf(time.Now())
 				var serr error
 				if variant == "start" {
 					serr = node.R.Start()
